@@ -20,7 +20,8 @@ func init() {
 		Level: "exploration",
 		Rule: "configurations G in {2,4,8,16,32,64} goroutines x GOMAXPROCS in {1,2,4,8,16} x allocator shared by pointer / copied by value per goroutine x 4 element types x allocators with Length 0 / full length: every goroutine runs M cycles of {get 1..3 buffers, check freshness (shape, zero over the whole capacity), stamp the whole capacity with goroutine<<32|cycle, yield/spin/sleep, re-read the stamps, put back-to-back (the buffer or Slice(0,n) of it)}, with forced double GCs at seeded cycles; " +
 			"goroutines share nothing with the monitor while running (per-goroutine logs with monotonic call/return timestamps, checked after Wait). Oracles: the Go race detector (race build, quiet mode), ownership stamps, freshness, an interval-overlap scan of the holding periods per storage key, and porcupine v1.3.0 linearizability of the recorded Get/Put history per storage key against the one-bit model held/free; " +
-			"each configuration is one short history; distinct = distinct per-key ownership sequences (hash of the time-ordered (goroutine, operation) list of a storage key); non-trivial = the key was handed over between two different goroutines at least once",
+			"each configuration is one short history; distinct = distinct per-key ownership sequences (hash of the time-ordered (goroutine, operation) list of a storage key); non-trivial = the key was handed over between two different goroutines at least once; " +
+			"also: buffers put back ending in a partly filled frame",
 		Assume: []string{"the race detector only reports races on executed paths", "schedules are those the Go scheduler produced under the perturbations listed; timestamps come from one monotonic clock",
 			"a porcupine timeout (60 s per history) is inconclusive, never a violation", "all buffers obtained during a history stay pinned so a storage address identifies one storage"},
 		Plan: func(tier string) []Batch {
